@@ -5,4 +5,4 @@ From XV Require Import Base.Str Base.Num Doc.Tree Doc.Store Xp.Ast Xp.Nav Xp.Axe
 Extraction Language OCaml.
 Extraction "xmodel.ml" build exec num_to_str str_to_num f_of_bits bits_of_f num_string_ok
   lookup string_value pos_of select path_ltb Z.add Z.mul Z.of_nat
-  read_json_result json_spec_tree read_xml dm_list read_html unmarshal_top cli_stdout parse_string canonical_text.
+  read_json_result json_spec_tree read_xml dm_list read_html unmarshal_top cli_stdout parse_string parse_string_readings canonical_text.
